@@ -7,6 +7,7 @@ A *scenario* is  {caps, prefix, ops, coins}:
 A *schedule* is a list of choices
   ["c", i, j, k]   deliver the first k pending messages i -> j of link (i, j)   (requests of node i to node j)
   ["s", i, j, k]   deliver the first k pending messages j -> i of link (i, j)   (answers of node j to node i)
+  ["o"]            the next operation of the batch is issued (operations overlap; they need not start in the same instant)
   ["t"]            advance the virtual clock to the next timer
   ["i", dt]        let dt seconds pass without reaching a timer (message latency)
 plus the seed of the lock back-off draws (random.uniform(1, 4) in _lock_nodes) and of the timer tie-break jitter.
@@ -496,11 +497,16 @@ def run_concurrent(env, scn, seed=0, schedule=None, p_tick=0.15, p_idle=0.1, bud
     ops = [tuple(o) for o in scn["ops"]]
     issuers = [op[1] if op[0] == "new" else w.holder_node(w.handle[op[1]]) for op in ops]
     kinds = []
-    for k, op in enumerate(ops):
+    nxt_op = [0]
+
+    def issue_next():
+        k = nxt_op[0]
+        op = ops[k]
+        nxt_op[0] += 1
         kinds.append(lock_kind(w, ops, op))          # as the placement is when the operation is issued
         ctx = contextvars.copy_context()
 
-        def go(op=op, k=k):
+        def go():
             OP.set(k)
             log(env, ("issue", k))
             try:
@@ -516,6 +522,7 @@ def run_concurrent(env, scn, seed=0, schedule=None, p_tick=0.15, p_idle=0.1, bud
     replay = list(schedule) if schedule is not None else None
     steps = 0
     quiescent = False
+    p_issue = rng.choice([1.0, 1.0, 0.5, 0.2]) if schedule is None else 1.0
     while True:
         for b in boxes:
             if b.done and b.k not in done_logged:
@@ -523,19 +530,24 @@ def run_concurrent(env, scn, seed=0, schedule=None, p_tick=0.15, p_idle=0.1, bud
                 log(env, ("done", b.k, b.status))
         opts = options(net, clock)
         calls = clock.getDelayedCalls()
-        if not opts and not calls:
+        unissued = nxt_op[0] < len(ops)
+        if not opts and not calls and not unissued:
             quiescent = True
             break
         if clock.seconds() - t0 > budget:
+            while nxt_op[0] < len(ops):      # never happens with the generators below; keeps the result list total
+                issue_next()
             break
         if replay is not None:
             if not replay:
                 # a recorded schedule ends at quiescence or at the budget; a diverging replay is finished deterministically
-                ch = ["t"] if (calls and not opts) else (list(opts[0]) if opts else ["t"])
+                ch = ["o"] if unissued else (["t"] if (calls and not opts) else (list(opts[0]) if opts else ["t"]))
             else:
                 ch = replay.pop(0)
         else:
-            if opts and calls:
+            if unissued and ((not opts and not calls) or rng.random() < p_issue):
+                ch = ["o"]
+            elif opts and calls:
                 u = rng.random()
                 if u < p_tick:
                     ch = ["t"]
@@ -554,7 +566,10 @@ def run_concurrent(env, scn, seed=0, schedule=None, p_tick=0.15, p_idle=0.1, bud
                 ch = [o[0], o[1], o[2], k]
         rec.append(ch)
         steps += 1
-        if ch[0] == "t":
+        if ch[0] == "o":
+            if unissued:
+                issue_next()
+        elif ch[0] == "t":
             if calls:
                 dt = max(min(c.getTime() for c in calls) - clock.seconds(), 0.0)
                 log(env, ("tick", round(clock.seconds() - t0 + dt, 6)))
@@ -563,6 +578,7 @@ def run_concurrent(env, scn, seed=0, schedule=None, p_tick=0.15, p_idle=0.1, bud
             clock.advance(ch[1])
         else:
             deliver(net, ch[0], ch[1], ch[2], ch[3])
+    boxes.sort(key=lambda b: b.k)
     trace = env.trace
     env.trace = None
     res = Result()
